@@ -73,11 +73,32 @@ def scan_assumptions(modules):
 # ------------------------------------------------------------------------------------------------
 # native replays
 def _replay_bin(name, args, verif):
-    env = dict(os.environ, CARGO_TARGET_DIR=os.path.join(verif, "work", "replay-target"), CARGO_NET_OFFLINE="true")
-    b = subprocess.run(["cargo", "build", "--offline", "--bin", name], cwd=os.path.join(verif, "replay"), env=env, stdout=subprocess.PIPE, stderr=subprocess.STDOUT, text=True)
+    """build and run one native replay program against the tree under check (path dependency). For /repo the
+    committed replay crate is used as it is; for a scratch tree (VERIF_REPO, seeded-change evaluation) a copy of
+    the replay crate pointing at that tree is generated under work/."""
+    rdir = os.path.join(verif, "replay")
+    tdir = os.path.join(verif, "work", "replay-target")
+    repo = os.path.realpath(extract.REPO)
+    if repo != "/repo":
+        import shutil
+        sfx = os.environ.get("VERIF_WORK_SUFFIX", "-alt")
+        rdir = os.path.join(verif, "work", "replay" + sfx)
+        tdir = os.path.join(verif, "work", "replay-target" + sfx)
+        if os.path.exists(rdir):
+            shutil.rmtree(rdir)
+        shutil.copytree(os.path.join(verif, "replay"), rdir, ignore=shutil.ignore_patterns("target"))
+        with open(os.path.join(rdir, "Cargo.toml")) as f:
+            t = f.read()
+        with open(os.path.join(rdir, "Cargo.toml"), "w") as f:
+            f.write(t.replace('path = "/repo"', 'path = "%s"' % repo))
+        if not os.path.exists(os.path.join(repo, "Cargo.toml")):
+            with open(os.path.join(repo, "Cargo.toml"), "w") as f:
+                f.write('[package]\nname = "injectorpp"\nversion = "0.4.0"\nedition = "2021"\n\n[dependencies]\nlibc = "0.2"\n\n[workspace]\n')
+    env = dict(os.environ, CARGO_TARGET_DIR=tdir, CARGO_NET_OFFLINE="true")
+    b = subprocess.run(["cargo", "build", "--offline", "--bin", name], cwd=rdir, env=env, stdout=subprocess.PIPE, stderr=subprocess.STDOUT, text=True)
     if b.returncode != 0:
-        return dict(reproduced=False, error="replay program does not build against /repo", build_tail=b.stdout[-1500:])
-    p = subprocess.run([os.path.join(verif, "work", "replay-target", "debug", name)] + [str(a) for a in args], stdout=subprocess.PIPE, stderr=subprocess.STDOUT, text=True, timeout=120)
+        return dict(reproduced=False, error="replay program does not build against the tree under check", build_tail=b.stdout[-1500:])
+    p = subprocess.run([os.path.join(tdir, "debug", name)] + [str(a) for a in args], stdout=subprocess.PIPE, stderr=subprocess.STDOUT, text=True, timeout=120)
     return dict(reproduced=p.returncode != 0, cmd="%s %s" % (name, " ".join(str(a) for a in args)), exit=p.returncode, transcript=p.stdout[-1500:])
 
 
